@@ -9,6 +9,7 @@ for all sizes — it is covered by the docstring / `spec.eq` oracles on the expl
 -/
 import OFV.Proofs.C13
 import OFV.Proofs.C13Shape
+import OFV.Proofs.C13Shape2
 import OFV.Proofs.C13Grid
 import OFV.Proofs.C13Diag
 import OFV.Proofs.C13Sound
@@ -169,6 +170,50 @@ theorem mean_field_dwave_conserves_sz (tol : Rat) (a : HubbardArgs) :
 theorem fermi_hubbard_model_conserves_number (tol : Rat) (m : FHM) :
     Conserves (fun _ => 1) (m.hamiltonian tol) :=
   conserves_fhm m (fun _ _ => rfl)
+
+/-- **FermiHubbardModel, spin-resolved conservation.**  `FermiHubbardModel.hamiltonian()` (any lattice, any list of
+tunneling / interaction / potential parameters, any field, with or without particle-hole symmetry) conserves every
+mode weight that depends on the spin index of `to_spin_orbital_index(site, dof, spin)` only: tunneling connects
+equal spin indices, all other terms are products of number operators. -/
+theorem fermi_hubbard_model_conserves_spin_resolved (tol : Rat) (m : FHM) (w : Nat → Int)
+    (hw : SpinResolved m.lattice w) : Conserves w (m.hamiltonian tol) :=
+  conserves_fhm_spin m hw
+
+/-- `FermiHubbardModel.hamiltonian()` on a spinful lattice conserves `S_z` (closes the S_z item of the open
+statements: it was covered by the `spec.eq` oracle only) -/
+theorem fermi_hubbard_model_conserves_sz (tol : Rat) (m : FHM) (hs : m.lattice.spinless = false) :
+    Conserves szWeight (m.hamiltonian tol) :=
+  conserves_fhm_spin m (spinResolved_sz _ hs)
+
+/-- … and the number of particles of each spin species `N_up` (`σ = 0`), `N_down` (`σ = 1`) separately -/
+theorem fermi_hubbard_model_conserves_spin_species (tol : Rat) (m : FHM) (hs : m.lattice.spinless = false) (σ : Nat) :
+    Conserves (spinCount σ) (m.hamiltonian tol) :=
+  conserves_fhm_spin m (spinResolved_count _ hs σ)
+
+/-- consequence at Spec level: every term of `FermiHubbardModel.hamiltonian()` on a spinful lattice maps a Fock
+basis state to a basis state with the same `2 S_z` and the same `N_σ` -/
+theorem fermi_hubbard_model_preserves_sz (tol : Rat) (m : FHM) (hs : m.lattice.spinless = false)
+    (e : Term × GQ) (he : e ∈ m.hamiltonian tol) (n s k s' : Nat)
+    (hm : ∀ f ∈ e.1, f.1 < n) (h : actFTerm e.1 s = some (k, s')) :
+    wt szWeight n s' = wt szWeight n s ∧ ∀ σ, wt (spinCount σ) n s' = wt (spinCount σ) n s := by
+  refine ⟨?_, fun σ => ?_⟩
+  · have := actFTerm_wt szWeight n e.1 s k s' hm h
+    rw [fermi_hubbard_model_conserves_sz tol m hs e he] at this
+    simpa using this
+  · have := actFTerm_wt (spinCount σ) n e.1 s k s' hm h
+    rw [fermi_hubbard_model_conserves_spin_species tol m hs σ e he] at this
+    simpa using this
+
+/-- the `onsite` edge type of `site_pairs_iter`: exactly the pairs `(i, i)` of the sites, each once, in order -/
+theorem site_pairs_onsite_spec (l : Lattice) (ordered : Bool) (i j : Nat) :
+    ((i, j) ∈ l.sitePairs 0 ordered ↔ i = j ∧ i < l.nSites) ∧ (l.sitePairs 0 ordered).Nodup := by
+  constructor
+  · simp only [Lattice.sitePairs, List.mem_map, List.mem_range, Prod.mk.injEq]
+    constructor
+    · rintro ⟨a, ha, rfl, rfl⟩; exact ⟨rfl, ha⟩
+    · rintro ⟨rfl, hi⟩; exact ⟨i, hi, rfl, rfl⟩
+  · simp only [Lattice.sitePairs]
+    exact List.Nodup.map (fun a b hab => (Prod.mk.inj hab).1) List.nodup_range
 
 /-! ### operator-level soundness (dictionary semantics `den φ A = Σ c · φ τ` of C01)
 
